@@ -7,14 +7,16 @@
 //    A/O r i v logical_and/or   + r i / - r i  increment/decrement   v r i k  async_visit (val = val*3 + k + 7*index)
 //    w r i k  async_visit with the (ptr, index, value, args) visitor signature (same function)
 //    B barrier   F for_all(index,value) dump   V for_all(value) dump   C copy-construct array #1 from #0   T n  select target
+//    K n  construct and destroy n scratch arrays of the same type   N len dv  array #1 := a fresh array
 //    Z len [fill]  resize(len[, fill]) — followed by NO barrier
 //    E form fam c salt k  for_all (form i: (index,value&), v: (value&)) whose callback modifies the value (fam-op c) and emits
 //       k rounds of async fam-updates to the visited element, its right neighbour and a far element of the SAME array
 //  bag ops (items uint64_t):
-//    i r x  async_insert(x)   t r x d  async_insert(x,d)   v r d x,x,..|-  async_insert(vector,d)
+//    i r x  async_insert(x)   t r x d  async_insert(x,d)   v r d x,x,..|-  async_insert(vector,d)   W r d n start  async_insert({start..start+n-1}, d)
 //    B barrier   D dump (local_for_all order + local_size)   R rebalance   L seed  local_shuffle   G seed  global_shuffle + barrier
 //    (during R and G every rank prints `snap <vector>` after each message it executes; G prints the ranks it drew as `gdest`)
 //    S swap(bag0,bag1)   T n  select target   g d  gather_to_vector(d)   a  gather_to_vector()   z size()   c clear()
+//  tbag ops: J x  every rank: async_insert(x+rank) immediately followed by all_gather({fresh tag, previous fresh tag})
 //  tbag ops (two tagged bags):  T n  select   S  swap(tb0,tb1)   i r x  insert (prints tag)   V r tag k  async_visit(tag, += k)   X r tag k  async_visit_if_exists
 //    E r tag  async_erase   B barrier   D dump (tag:item:owner, sorted)   g tag,tag,..  all_gather   z size()
 #define HC_OWN_HOOK
@@ -83,6 +85,8 @@ static int run_array(ygm::comm& world, const args_t& argv) {
     if (c == 'B') { world.barrier(); continue; }
     if (c == 'T') { cur = (int)U(f[1]); continue; }
     if (c == 'C') { a[1].reset(new arr_t(*a[0])); world.barrier(); continue; }
+    // n scratch arrays of the same type constructed and destroyed (every construction takes a new ygm_ptr slot)
+    if (c == 'K') { for (u64 k = 0; k < U(f[1]); ++k) { arr_t scratch(world, 1, (u64)0); } world.barrier(); continue; }
     // a second, independent array of the same type (other length / default) alive next to array #0
     if (c == 'N') { a[1].reset(new arr_t(world, U(f[1]), U(f[2]))); world.barrier(); continue; }
     if (c == 'F') {
@@ -203,6 +207,10 @@ static int run_bag(ygm::comm& world, const args_t& argv) {
       case 'i': if ((int)U(f[1]) == me) t.async_insert(U(f[2])); break;
       case 't': if ((int)U(f[1]) == me) t.async_insert(U(f[2]), (int)U(f[3])); break;
       case 'v': if ((int)U(f[1]) == me) t.async_insert(list(f[3]), (int)U(f[2])); break;
+      case 'W': if ((int)U(f[1]) == me) {   // vector insert of the n consecutive items start, start+1, ...
+        std::vector<u64> v(U(f[3])); for (size_t k = 0; k < v.size(); ++k) v[k] = U(f[4]) + k;
+        t.async_insert(v, (int)U(f[2]));
+      } break;
       default: hc::out(std::string("bad-op ") + c);
     }
   }
@@ -227,6 +235,17 @@ static int run_tbag(ygm::comm& world, const args_t& argv) {
       case 'V': if ((int)U(f[1]) == me) tb.async_visit(U(f[2]), [](const size_t& tag, u64& v, const u64& k) { v += k; }, U(f[3])); break;
       case 'X': if ((int)U(f[1]) == me) tb.async_visit_if_exists(U(f[2]), [](const size_t& tag, u64& v, const u64& k) { v += k; }, U(f[3])); break;
       case 'E': if ((int)U(f[1]) == me) tb.async_erase(U(f[2])); break;
+      case 'J': {   // every rank inserts x+rank and AT ONCE (no barrier, no size()) gathers its fresh tag and the one before
+        static std::vector<size_t> mine[2];
+        auto tag = tb.async_insert(U(f[1]) + me);
+        hc::out("tag " + std::to_string(tag));
+        std::vector<size_t> q{tag}; if (!mine[cur].empty()) q.push_back(mine[cur].back());
+        mine[cur].push_back(tag);
+        auto m = tb.all_gather(q);
+        std::ostringstream o; o << "jgather";
+        for (auto& p : m) o << " " << p.first << ":" << p.second;
+        hc::out(o.str()); world.barrier();
+      } break;
       case 'D': {
         std::vector<std::pair<size_t, u64>> it;
         tb.for_all([&it](const size_t& tag, u64& v) { it.push_back({tag, v}); });
@@ -251,11 +270,33 @@ static int run_tbag(ygm::comm& world, const args_t& argv) {
   return 0;
 }
 
+// bag<std::string>: items carry their own length prefix on the wire.  ops: i r len seed | B | R | a (gather to all, sorted len:hash)
+static int run_sbag(ygm::comm& world, const args_t& argv) {
+  ygm::container::bag<std::string> b(world);
+  int me = world.rank();
+  for (auto& f : parse(argv[1].c_str())) {
+    char c = f[0][0];
+    if (c == 'B') world.barrier();
+    else if (c == 'R') { b.rebalance(); }
+    else if (c == 'i') { if ((int)U(f[1]) == me) { std::string s(U(f[2]), 'a'); hc::rng g(U(f[3])); for (auto& ch : s) ch = (char)(33 + g.below(90)); b.async_insert(s); } }
+    else if (c == 'a') {
+      auto v = b.gather_to_vector();
+      std::vector<std::string> d;
+      for (auto& s : v) d.push_back(std::to_string(s.size()) + ":" + std::to_string(std::hash<std::string>{}(s)));
+      std::sort(d.begin(), d.end());
+      hc::out(join("sgather", d.begin(), d.end())); world.barrier();
+    }
+  }
+  world.barrier();
+  return 0;
+}
+
 static int run_scenario(ygm::comm& c, const args_t& a) {
   if (a.empty()) return 0;
   if (a[0] == "array") return run_array(c, a);
   if (a[0] == "bag") return run_bag(c, a);
   if (a[0] == "tbag") return run_tbag(c, a);
+  if (a[0] == "sbag") return run_sbag(c, a);
   hc::out("bad-mode");
   return 1;
 }
